@@ -60,10 +60,12 @@ def structures(run):
 
 
 def large_sparse(rng, host_n, guest_n):
-    """a big host with no terms followed by a small bonded guest in which atoms occur in several term slots; many deletions
-    spread over the host (numpy switches algorithms with the size and spread of such index arrays)"""
+    """a big host with no terms and, somewhere in the middle of the atom list, a small bonded guest in which atoms occur in several term
+    slots; many deletions spread over the whole host, below and above the guest (numpy switches algorithms with the size and spread of
+    such index arrays, and so may a maintainer)"""
     st = tagged(rng, host_n + guest_n, "L", True, cell=CELL, rich=False, max_terms=0)
-    g = list(range(host_n, host_n + guest_n))
+    g0 = rng.randrange(host_n // 4, 3 * host_n // 4)
+    g = list(range(g0, g0 + guest_n))
     for k, t_, c_, x_, l_, ar in KINDS:
         kk = st[k]
         tups = []
@@ -76,11 +78,14 @@ def large_sparse(rng, host_n, guest_n):
         kk["tup"] = tups
         kk["typ"] = [0] * len(tups)
         kk["xf"] = [["tL%s%d" % (k[0], j)] + ["q"] * (len(kk["xl"]) - 1) for j in range(len(tups))]
-    nd = rng.randint(20, 44)
-    step = host_n // nd
-    ds = sorted(rng.randrange(i * step, (i + 1) * step) for i in range(nd))
+    nd = rng.choice([rng.randint(20, 32), rng.randint(33, 44), rng.randint(45, 70)])
+    host = [i for i in range(host_n + guest_n) if i not in g]
+    step = len(host) // nd
+    ds = sorted(host[rng.randrange(i * step, (i + 1) * step)] for i in range(nd))
     if rng.random() < 0.3:
         ds.append(g[rng.randrange(guest_n)])
+    if rng.random() < 0.5:
+        rng.shuffle(ds)
     return st, ds
 
 
@@ -112,7 +117,7 @@ def main(tier, seed, replay=None):
                             cases.append((st, [("del", sh)], "subset-shuffled"))
                 for p in list(range(-n, n)):
                     cases.append((st, [("pop", p)], "pop"))
-            for i in range(4 if tier == "quick" else 40):
+            for i in range(6 if tier == "quick" else 40):
                 st, ds = large_sparse(run.rng, run.rng.choice([300, 450, 600, 900]), run.rng.randint(8, 14))
                 cases.append((st, [("del", ds)], "large-sparse"))
         I = AIO.Interner()
